@@ -452,6 +452,7 @@ impl<'a> Interpreter<'a> {
                                     } else if let Some(CelValue::Type(type_name)) =
                                         self.get_type_by_name(&func_name)
                                     {
+                                        self.refuse_clock_while_folding(type_name, &args)?;
                                         stack.push_val(self.call_with_args(args, |a| {
                                             construct_type(type_name, a)
                                         })?);
@@ -465,6 +466,7 @@ impl<'a> Interpreter<'a> {
                                     }
                                 }
                                 CelValue::Type(type_name) => {
+                                    self.refuse_clock_while_folding(&type_name, &args)?;
                                     stack.push_val(
                                         self.call_with_args(args, |a| construct_type(&type_name, a))?,
                                     );
@@ -568,6 +570,15 @@ impl<'a> Interpreter<'a> {
 
     fn is_compile_time(&self) -> bool {
         self.bindings.map_or(false, |b| b.is_compile_time())
+    }
+
+    /// `timestamp()` without arguments reads the wall clock, so it is never constant folded
+    /// and is evaluated on every execution instead.
+    fn refuse_clock_while_folding(&self, type_name: &str, args: &[CelValue]) -> CelResult<()> {
+        if self.is_compile_time() && type_name == "timestamp" && args.is_empty() {
+            return Err(CelError::runtime("timestamp() is not constant"));
+        }
+        Ok(())
     }
 
     fn get_param_by_name(&self, name: &str) -> Option<&'a CelValue> {
